@@ -53,16 +53,18 @@ ModelAct(ev) ==
       [] ev.e = "Open"    -> Open(ev.k)
       [] ev.e = "Close"   -> Close(ev.k)
       [] ev.e = "Destroy" -> Destroy
+      [] ev.e = "Attempt" -> Attempt(ev.r)
       [] OTHER            -> FALSE
 
 MonNext(m, ev) ==
     LET o == ev.o
         a == ev.e
         rs == a = "Close" /\ ev.k = "cut" /\ m.resOK
-    IN [up    |-> IF a = "Open" THEN TRUE ELSE IF a \in {"Close", "Destroy"} THEN FALSE ELSE m.up,
+    IN [up    |-> IF a = "Open" THEN TRUE ELSE IF a \in {"Close", "Destroy", "Attempt"} THEN FALSE ELSE m.up,
         resOK |-> IF a = "Open" /\ ev.k = "smr" THEN TRUE
                   ELSE IF a = "Open" /\ ev.k \in {"sm", "plain"} THEN FALSE ELSE m.resOK,
-        resumable |-> IF a = "Close" THEN rs ELSE IF a \in {"Open", "Destroy"} THEN FALSE ELSE m.resumable,
+        resumable |-> IF a = "Close" THEN rs ELSE IF a \in {"Open", "Destroy"} THEN FALSE
+                      ELSE IF a = "Attempt" /\ ev.r # "precut" THEN FALSE ELSE m.resumable,
         dead  |-> m.dead \/ a = "Destroy",
         st    |-> [i \in Ids |-> IF o.req[i].n >= 1 THEN "Done"
                                  ELSE IF a = "Send" /\ ev.id = i THEN "Out"
@@ -72,7 +74,8 @@ MonNext(m, ev) ==
         n     |-> [i \in Ids |-> o.req[i].n]]
 
 (* the step ends the session for good / starts one that is not a resumption *)
-Ends(m, ev) == ev.e = "Destroy" \/ (ev.e = "Close" /\ ~(ev.k = "cut" /\ m.resOK)) \/ (ev.e = "Open" /\ ev.k # "resumed")
+Ends(m, ev) == \/ ev.e = "Destroy" \/ (ev.e = "Close" /\ ~(ev.k = "cut" /\ m.resOK)) \/ (ev.e = "Open" /\ ev.k # "resumed")
+               \/ (ev.e = "Attempt" /\ ev.r # "precut")       \* resumption of the suspended session was given up
 
 JustifiedAt(m, ev, i) ==
     LET r == ev.o.req[i] IN
